@@ -52,7 +52,7 @@ class C12(Prop):
             "k inserted alternatives / perturbed voters, weak orders with several alternatives tied at the top; "
             "k_alternative_deletion additionally on planted profiles up to m = 12 (certificate + agreement with the "
             "ILP); non-trivial = optimum > 0 or >= 3 orders")
-    budget = {"quick": 60, "thorough": 600}
+    budget = {"quick": 60, "thorough": 1500}
     anchors = [("preflibtools.properties.subdomains.ordinal.singlepeaked.singlepeakedness", n) for n in
                ("approx_SP_voter_deletion_ILP", "approx_SP_alternative_deletion_ILP", "sp_ILP_cons_ones_vot_del_cstr",
                 "sp_ILP_cons_ones_alt_del_cstr", "sp_cons_ones_matrix", "sp_ILP_trans_cstr", "sp_ILP_total_cstr",
